@@ -38,7 +38,7 @@ CHECKS = {
          "Proved for all lengths/ranks/inputs: generators list every permutation once in (length, lex) order, rank/unrank inverse and order-matching "
          "(error branches explicit), to_standard is the unique tie-broken order-isomorphic permutation (memo history independent), notation round trips "
          "with exact domains, mesh rank/unrank/of_length bijective. Exhaustive correspondence on all ranks up to sum n! (n<=7).",
-         "repr round trip (eval) correspondence-only.", "5/C09"),
+         "repr round trip proved for a parser of exactly the repr sub-grammar (parseRepr (repr s) = some s; the parser accepts nothing else); that Python's eval restricted to that sub-grammar is this parser is evaluated (streams repr-read / repr-malformed).", "5/C09"),
  "C10": ("Lean 4 theorems: closure, group laws, sum/skew/inflate configurations, shift actions, insert/remove inverses, decompositions, intervals, children/coveredby duality + correspondence",
          "54 theorems for all permutations and all argument values (including assert/IndexError branches); exhaustive correspondence for |p|<=6 "
          "with all indices/values/shifts in -2n..2n and an independent definitional oracle.",
@@ -66,13 +66,13 @@ CHECKS = {
          "Av(231) / Av(231,321) / Av(231,312); counters terminate with the least k; West-k iff count<=k; Simion-Schmidt is a bijection "
          "Av_n(123)->Av_n(132) fixing left-to-right minima, undone by its inverse, rejecting other inputs; dihedral group = n-gon symmetries; "
          "alternating = even parity (n>=3); family pattern tables regenerated from perm_properties.py. Exhaustive correspondence |s|<=8.",
-         "quick-sortable/West-2/Baxter/simsun/forest-like/Greene characterisations are bounded tests (evidence.partial).", "5/C12"),
+         "Also proved for all permutations: West's theorem (two stack passes sort iff Av(2341, 3-bar5-241)), quick-sortable iff Av(321, 2413, (2143,{(2,2)})), and the mesh patterns of the source characterise the textbook index-level definitions of Baxter, simsun and forest-like permutations. Only the RSK shape (Greene) is a bounded test (evidence.partial).", "5/C12"),
  "C18": ("Lean 4 theorems: NE shading lemma and its rotations (can_shade/can_simul_shade/shadable_boxes sound for ALL permutations), add_point semantics, region lookups, ascii_plot round trip + correspondence with semantic brute-force oracle",
          "Proved for all meshes, cells and ALL permutations: a licensed shading does not change the set of containing permutations (single, "
          "simultaneous, table); add_point(mu,(x,y),d) is contained exactly in the permutations with an occurrence of mu having a point in the cell; "
          "is_shaded/is_pointfree/has_anchored_point/non_pointless_boxes are their region definitions; parsePlot(ascii_plot mu) = mu. "
          "Exhaustive correspondence over all 1042 meshes of length <=2 x all cells/pairs/directions with an independent oracle over all permutations <=6.",
-         "plot round trip proved for cell size 1 only.", "5/C18"),
+         "can_simul_shade is modelled for arbitrary integer positions (Python negative-index wrap-around included): every non-empty answer lies in the grid and is sound, the only exception is IndexError. Plot round trip proved for cell size 1 only.", "5/C18"),
  "C17": ("Lean 4 theorems: BiSC (mine+forb) output is sound up to n, complete up to m and irredundant for ALL finite inputs and all three representations; private containment tests = mesh containment; clean-up invariant + correspondence with brute-force judge",
          "Proved for the model of mine/forb/bisc, for every finite list of permutations and all m<=n: bisc_sound, bisc_complete, bisc_irredundant, "
          "hitting_sound, mine_covers, the private containment tests equal mesh containment / sub-mesh inclusion, maximal mesh pattern, clean-up bases hit "
@@ -96,7 +96,7 @@ CHECKS = {
          "describes (each numeral an independent pin beyond all earlier points in its quadrant, each direction a separating pin), error kinds outside; "
          "pinwords_of_length lists the language without repetition; word->perm and perm->words tables are inverse and memo-history independent; "
          "m_to_sp/sp_to_m are mutually inverse; the (fixed) pinword_contains equals Thm 3.13's non-touching search. Letter tables regenerated from the source.",
-         "the containment iff (Bassino-Bouvel-Pierrot-Rossin Thm 3.13) is a bounded test: all strict words <=5 / all words <=4 against all permutations <=4.", "5/C14"),
+         "The containment iff (Bassino-Bouvel-Pierrot-Rossin Thm 3.13) is PROVED in both directions for every pin word of the language and every permutation (pinword_contains_iff), with decode_act (decoding commutes with the eight symmetries); the former bounded test still runs as a correspondence test of the real code against the proved model.", "5/C14"),
  "C11": ("Lean 4 theorems: every listing/count/statistic model = its definitional spec (28 of the 32 named statistics, Fenwick-tree inversions, cycles/order, bounces, stack-sort counts, primes), name->function table regenerated from the source and decided, distribution/preservation tools + correspondence",
          "Proved for all permutations (most for all sequences): each counting form = length of its listing; the 20 positional listings = their definitional "
          "filters; single-pass algorithms (records, runs, major index, depth, rank encoding, holeyness), the Fenwick-tree inversion count, cycle decomposition "
@@ -117,7 +117,7 @@ CHECKS = {
          "other element of the prescribed one-plus-(in)decomposable form (zero_plus_*, Rd2134/Ru2143 shapes characterised by definition), no exception, invariance "
          "under order and repetition, insertion-encoding strategy = is_insertion_encodable, find_strategies(quick) = slow result minus long strategies. "
          "Exhaustive correspondence on all sets of <=3 permutations of length 1-4 with an independent oracle and all eight images.",
-         "invariance of the core strategies under the eight images is evaluated (sym8find lines), not proved; FinitelyManySimples takes has_finite_simples as input (C16).", "5/C19"),
+         "Every shape test of the eight core strategies (bstrip, RdCdCu/RdCu, the mesh conditions and last components of Rd2134/Ru2143) is proved equal to an index-free definition for all lengths; invariance under the eight symmetries is proved for every strategy and both searches; FinitelyManySimples takes has_finite_simples as input (C16, whose symmetry invariance is now proved).", "5/C19"),
  "C20": ("Lean 4 theorems: JSON round trip, read-after-writes for the generated open mode over all op histories, reader = file-value spec (missing/malformed reported, never other data), automaton DB invariants by induction over histories + correspondence + exhaustive enumeration of shipped data",
          "Proved: from_json(dumps d) = d; for the write mode and reader shape extracted from the source each run, after ANY sequence of writes/reads from any "
          "initial file system a read returns exactly the dataset last written to that name and other names are untouched; read_bisc_file returns data iff the "
@@ -132,13 +132,13 @@ CHECKS = {
          "independent); 'finitely many pin permutations' <-> accepted words bounded in length (for every driver-executed instance via a checked certificate). "
          "automata-lib is not modelled: its DFAs are compared with the model's own determinise/minimise/product pipeline through canonical minimal forms, "
          "including every shipped dfa_db file against a fresh computation.",
-         "accepts <-> contains a basis element (Bassino-Bouvel-Pierrot-Rossin) is a bounded test: all words of L(M) of length <=8 x all bases of <=2 permutations of length <=4.", "5/C15"),
+         "accepts <-> the permutation of the pin sequence contains a basis element (Bassino-Bouvel-Pierrot-Rossin) is PROVED (Props/C15Ext.lean accepts_iff_contains, from C14.pinword_contains_iff), as is has_finite_pinperms <-> the avoiding pin permutations are bounded, its dependence on the class only and its invariance under the eight symmetries; the bounded enumeration still runs as a test.", "5/C15"),
  "C16": ("Lean 4 theorems: decision logic of has_finite_simples / Av.has_finitely_many_simples / CLI / strategy, D8 characterisation and invariance of the special-simples test, explicit infinite families avoid the generated tables for all m + correspondence on all entry points with a brute-force simples oracle",
          "Proved: has_finite_simples = special AND pin for every flag combination, all four entry points ask the same question; the special test succeeds iff for "
          "each table T (parallel alternations, wedges type 1/2, regenerated from the source) and each of the eight symmetries some basis element avoids g.T, it "
          "depends only on the class, is order/repetition independent and D8-invariant; when it says 'infinitely many' an explicit family with members of "
          "every length >= 2m lies inside the class (parAlt/wedge families avoid the tables for ALL m).",
-         "agreement of the verdict with the actual simples (Brignall-Ruskuc-Vatter, Schmerl-Trotter) and D8-invariance of the pin half are evaluated (simples counted by brute force to n=9).", "5/C16"),
+         "D8-invariance and class-only dependence of the whole verdict are proved without hypothesis (hasFiniteSimples_act_all / _class_only_all, through C14's Thm 3.13). Agreement of the verdict with the actual simples (Brignall-Ruskuc-Vatter, Schmerl-Trotter) is proved for the special half (False => simples in every second length) and evaluated for the pin half (simples counted by brute force to n=9).", "5/C16"),
 }
 
 PENDING = {}
